@@ -2,7 +2,7 @@
 from hypothesis import strategies as st
 
 LINKS = ["await_coro", "await_gencoro", "await_obj_wrapper", "await_obj_gen", "yield_from_gen",
-         "async_for", "asend", "anext", "athrow", "aclose"]
+         "async_for", "asend", "anext", "athrow", "aclose", "in_aexit", "in_with_body"]
 ENDS = ["trap", "trap", "fut", "listiter", "falsyiter"]
 OUTERS = ["coro", "coro", "gen", "gencoro", "agen"]
 
